@@ -256,6 +256,14 @@ func (tr *Transaction) Commit() error {
 }
 
 func (tr *Transaction) discard() {
+	// A commit attempt that failed may have left this transaction's record,
+	// and with it its last sequence number, in a manifest file (the record
+	// was written, its sync failed). Later writes must not be given sequence
+	// numbers of that range: if that manifest is read again, recovery would
+	// reject them as already applied, although they were acknowledged.
+	if tr.rec.has(recSeqNum) && tr.seq > tr.db.getSeq() {
+		tr.db.setSeq(tr.seq)
+	}
 	// A failed commit may have left this transaction's record in the current
 	// manifest file. Its tables may only be removed once a new manifest, which
 	// does not list them, has replaced that file; otherwise the next open
